@@ -97,7 +97,7 @@ def check_C04(tier):
     agg.add(_gencheck('C04', tier))
     rule = ('case = (one of the 69 background names | accepted DBD configuration incl. windows) x steered tape with heavy tail steering (low 10^-U(0,12), '
             'high 1-10^-U(0,12), reference thresholds); oracle: validity predicate (1..100 particles, species, finite bounded momenta, finite non-negative '
-            'non-decreasing times, event time 0, label == requested name, <=20000 deviates); plus the cascade-level pass (every <Nuclide>low routine x every entry level x 30000 / 1000000 tapes) through the particle part of the predicate; distinct = (configuration, path signature, tail class)')
+            'non-decreasing times, event time 0, label == requested name, <=20000 deviates); plus the cascade-level pass (every <Nuclide>low routine x every entry level x 30000 / 1000000 tapes) through the particle part of the predicate; plus a targeted search per background nuclide (hill climbing on the tape, objective = number of particles of the event, 25000 / 200000 steps) against runaway cascades; distinct = (configuration, path signature, tail class)')
     return verdict(agg, tier, t0, rule, GEN_ASSUME, min_eval=1000)
 
 
@@ -158,6 +158,45 @@ def _c05_list_variants(agg):
         os.makedirs(REPLAY, exist_ok=True)
         open(path, 'w').write('resource directory: %s\nvariant: %s\nmissing: %r\nextra: %r\nreproduce: BXDECAY0_RESOURCE_DIR=<that directory> build/bin/fast/listdump\n' % (d, vn, missing, extra))
         agg.failures.append({'sig': 'C05|catalogue|list-layout:%s' % vn, 'msg': 'the catalogue read from list files re-saved as "%s" differs from the shipped one: missing %r, extra %r' % (vn, missing, extra), 'replay': path})
+
+
+def _uninit_differential(agg, thorough):
+    import glob
+    refd = vlib.build_ref()
+    dig = {}
+    for v in ('ivz', 'ivp'):
+        b = compile_bin('gencheck', ['checks/gencheck.cc'], v, inc=[refd])
+        base = os.path.join(BUILD, 'run', 'C08-digest-' + v)
+        for f in glob.glob(base + '.*'):
+            os.remove(f)
+        args = ['--prop', 'C04', '--seed', str(seed()), '--tier', 'quick', '--known', known_tsv('C04'), '--bkg_evts', '60000' if thorough else '6000', '--dbd_evts', '400' if thorough else '60',
+                '--lowevts', '60000' if thorough else '6000', '--climb', '0', '--digest', base]
+        reps = run_native(b, args, NCPU, 'C08-uninit-' + v, extra_env=_ga_env())
+        for r in reps:
+            if r.get('crashed') or r.get('rc') not in (0,):
+                agg.broken.append('uninitialised-read differential: driver (%s) failed: %s' % (v, (r.get('stdout', '') + r.get('stderr', ''))[-300:]))
+        d = {}
+        for f in glob.glob(base + '.*'):
+            for l in open(f):
+                k, h, n = l.rstrip('\n').split('\t')
+                d[k] = (h, n)
+        dig[v] = d
+    keys = set(dig['ivz']) | set(dig['ivp'])
+    agg.evaluations += sum(int(x[1]) for x in dig['ivz'].values())
+    agg.labels['uninit-differential-configurations'] = len(keys)
+    bad = sorted(k for k in keys if dig['ivz'].get(k) != dig['ivp'].get(k))
+    for k in bad[:6]:
+        path = os.path.join(REPLAY, 'C08-uninit-%s.txt' % re_sub(k))
+        os.makedirs(REPLAY, exist_ok=True)
+        open(path, 'w').write('configuration: %s\nzero-initialised build digest/events: %r\npattern-initialised build digest/events: %r\nreproduce: build/bin/ivz/gencheck and build/bin/ivp/gencheck --prop C04 --digest <file> (same seed) and compare the line of this configuration\n' % (k, dig['ivz'].get(k), dig['ivp'].get(k)))
+        agg.failures.append({'sig': 'C08|%s|crash:uninitialised-read:differential' % k, 'msg': 'the events of %s differ between a library whose automatic variables start as zero and one where they start as a bit pattern: a variable is read before it is assigned' % k, 'replay': path})
+    if not bad and keys:
+        agg.nontrivial.add('uninit-differential|%d' % len(keys))
+
+
+def re_sub(k):
+    import re
+    return re.sub(r'[^A-Za-z0-9_.+-]', '_', k)[:80]
 
 
 def _fuzz(name, srcs, prop, secs, jobs, agg, max_len=2048, extra=None, timeout_s=10, min_secs_replay=0, ref=False):
@@ -599,7 +638,7 @@ def check_C08(tier):
     agg = Agg('C08')
     thorough = tier == 'thorough'
     # (a) C04 / C03 / C05 drivers against the sanitized library
-    extra04 = ['--bkg_evts', '20000' if thorough else '1200', '--dbd_evts', '1500' if thorough else '120', '--lowevts', '30000' if thorough else '1500']
+    extra04 = ['--bkg_evts', '20000' if thorough else '1200', '--dbd_evts', '1500' if thorough else '120', '--lowevts', '30000' if thorough else '1500', '--climb', '20000' if thorough else '2000']
     agg.add(_gencheck('C04', tier if thorough else 'quick', 'san', extra04, tag='C08-c04'), crash_prop='C08')
     agg.add(_gencheck('C05', 'quick', 'san', ['--evts', '6000' if thorough else '600'], tag='C08-c05'), crash_prop='C08')
     if thorough:
@@ -615,13 +654,17 @@ def check_C08(tier):
     # semantic failures of the piggy-backed drivers belong to their own properties: keep only sanitizer findings here
     agg.failures = [f for f in agg.failures if '|crash:' in f['sig']]
     agg.known = {}
+    # (a') uninitialised reads: no sanitizer available here reports the read of an uninitialised scalar (MemorySanitizer needs an instrumented C++
+    # library).  The C04 driver is run against two builds of the library that differ ONLY in how automatic variables start out (clang
+    # -ftrivial-auto-var-init=zero / =pattern); every (configuration, tape) must give the same event, bit for bit, in both
+    _uninit_differential(agg, thorough)
     # (b) fuzz_shoot
     fz = _fuzz('fuzz_shoot', ['fuzz/fuzz_shoot.cc'], 'C08', secs=(600 if thorough else 25), jobs=NCPU, agg=agg)
     # the tabulated-spectra samplers on every table their loaders accept (rows that end below 1, slivers, one-node tables): the C15 target
     # doubles as a generation-path target here (its semantic traps are C15's business, but any trap on the unchanged tree is one too many)
     fz.update(_fuzz('fuzz_ga', ['fuzz/fuzz_ga.cc'], 'C08', secs=(120 if thorough else 10), jobs=NCPU, agg=agg, max_len=4096))
     rule = ('cases = (configuration, steered tape, event reuse / pre-fill) from the C04/C05 drivers and (operation, event sequence) from the C10 driver re-run against the ASan+UBSan+_GLIBCXX_ASSERTIONS build, plus the '
-            'structure-aware libFuzzer target fuzz_shoot (bytes -> category, name, level, mode, window, reuse pattern, MDL op, tape) and the gA sampler target fuzz_ga (loader-accepted tables + deviates); oracle = sanitizers, sharpened by red zones: a guarded layout hook puts 16 unused bytes before, between and after the fixed-size spectrum tables of bbpars and the drivers poison them (ASAN_POISON_MEMORY_REGION) while a generator is initialised, so an index one before / past a table is reported although it stays inside the object; '
+            'structure-aware libFuzzer target fuzz_shoot (bytes -> category, name, level, mode, window, reuse pattern, MDL op, tape) and the gA sampler target fuzz_ga (loader-accepted tables + deviates); oracle = sanitizers, sharpened by red zones: a guarded layout hook puts 16 unused bytes before, between and after the fixed-size spectrum tables of bbpars and the drivers poison them (ASAN_POISON_MEMORY_REGION) while a generator is initialised, so an index one before / past a table is reported although it stays inside the object; plus an uninitialised-read differential: the C04 driver against two builds of the library that differ only in how automatic variables start out (zero / bit pattern) must give bit-identical events for every (configuration, tape); '
             'distinct = (configuration, path signature, tail class) for the drivers + libFuzzer corpus units')
     return verdict(agg, tier, t0, rule, ['sanitizers as oracle: ASan, UBSan (-fno-sanitize-recover), _GLIBCXX_ASSERTIONS; leak detection off',
                                          'documented rejections (C++ exceptions) are not failures'], extra_cov=fz, min_eval=1000)
@@ -693,6 +736,8 @@ def setup_all():
     compile_bin('gridcheck', ['checks/gridcheck.cc'], 'fast', ref=True)
     compile_bin('gencheck', ['checks/gencheck.cc'], 'fast', inc=[refd])
     compile_bin('gencheck', ['checks/gencheck.cc'], 'san', inc=[refd])
+    compile_bin('gencheck', ['checks/gencheck.cc'], 'ivz', inc=[refd])
+    compile_bin('gencheck', ['checks/gencheck.cc'], 'ivp', inc=[refd])
     compile_bin('proto', ['checks/proto.cc'], 'fast', libs=['-lrapidcheck', '-rdynamic'])
     compile_bin('history', ['checks/history.cc'], 'fast', libs=['-lrapidcheck'], inc=[refd])
     compile_bin('readercheck', ['checks/readercheck.cc'], 'fast', libs=['-lrapidcheck'])
